@@ -657,6 +657,8 @@ bool Interpret::getAssignment() const {
 namespace { // Helper for get-value command
 // The lexer strips the bars of a quoted symbol; put them back when echoing
 void printAstText(ASTNode const & node, Logic const & logic) {
+    // composite nodes carry no text; inserting a null pointer would put std::cout into a failed state
+    if (node.getValue() == nullptr) { throw std::logic_error("Unsupported term type"); }
     if (node.getType() == QSYM_T) {
         std::cout << '|' << node.getValue() << '|';
     } else if (node.getType() == VARB_T) {
